@@ -17,7 +17,7 @@ CLAIMS = {
  "C01": claim("Contracts on Loop.schedule (exactly one activation queued for the selected date; usage assertions as call-site "
               "obligations), postpone/suspend (resume in the same step / exactly delay later, private wake-up dead on every exit), "
               "After/Before/Moment/Instant/Eternity/Delay/Time (exact resume date, same step when the date is reached, no normal "
-              "completion path for dates that cannot hold any more), Scope.do date normalisation, the task wrapper's start date. "
+              "completion path for dates that cannot hold any more), Scope.do date normalisation (the start date reaches the task unconverted: ghost Task.start_at/start_delay), the task wrapper's start date. "
               "Kernel: both wait-queue back ends (heap+dict, SortedDict) are proved to refine one abstract view (FIFO per date, pop = "
               "complete FIFO of the smallest date; heap order and key/dict coupling as invariants); Loop._run_events is proved "
               "against that view: the clock never decreases, every queued date lies strictly after the clock between time steps, the "
@@ -62,8 +62,10 @@ CLAIMS = {
               "Tracked values: a comparison registers itself with each tracked operand; Tracked.set puts the new value in force and has "
               "every registered comparison re-evaluated for it before the setter yields.",
               "Assumed: contextlib.ExitStack + the subscriptions it holds inside Connective.__await_children__ (interface contract). "
-              "AsyncComparison.__on_changed__/__bool__ (closure stored in a field) are an assumed interface. Not under contract: De Morgan "
-              "inversion of All/Any (comprehension that allocates), resource-level comparisons.", "5/C08"),
+              "AsyncComparison.__on_changed__/__bool__ (closure stored in a field) are an assumed interface; De Morgan (~ of All/Any is Any/All "
+              "of the inverted children, with the negated value) is proved against the abstract contract of Condition.__invert__, which is "
+              "checked for the leaf classes above and assumed for tracked/resource comparisons; principle P (a condition's value depends "
+              "only on objects not younger than itself, DESIGN 12.8) is assumed.", "5/C08"),
  "C09": claim("Every function of Lock under contract: FIFO hand-off, re-entrancy depth arithmetic, `available`, exit routes of "
               "__aenter__ (neither owner nor waiter after any abnormal exit, ownership passed on), invariants (free lock idle, designated "
               "owner has a live wake-up, a live wake-up belongs to the owner, waiters distinct and never the owner) at every yield point.",
@@ -71,7 +73,8 @@ CLAIMS = {
  "C10": claim("Queue.put appends at the tail and wakes the oldest receiver before yielding; _await_message hands out exactly the head of "
               "the buffer as it was at the receiver's last suspension (commit clause) and on cancel/interrupt/close at any suspension "
               "leaves the buffer untouched and gives the read mutex up; closed+empty raises StreamClosed; receivers are ordered by the "
-              "Lock contracts.", "`assert self._closed` after an empty wake-up is assumed; Queue.__aiter__ is not under contract.", "5/C10"),
+              "Lock contracts.", "Queue.__await__ and Queue.__aiter__ (one head item per step, at least one suspension per step, ends only closed+drained) "
+              "are under contract. `assert self._closed` after an empty wake-up is assumed.", "5/C10"),
  "C11": claim("Channel: put appends the message exactly once to the end of every registered buffer, adds/removes no buffer and wakes every "
               "waiting consumer before it yields (closed: StreamClosed, nothing stored); close keeps pending messages; `await channel` "
               "registers a fresh empty buffer, returns the head of it (first message since registration) and unregisters it on every exit "
